@@ -45,6 +45,10 @@ type Config struct {
 	// ReloadB > 0: the alphabet has a reload that replaces R1b by a rule with the threshold toggled
 	// between its own and ReloadB (entries may be in flight; all counters must be kept)
 	ReloadB int64 `json:"reload_r1b_threshold,omitempty"`
+	// Throttle0 puts a permissive QPS rule with throttling behaviour (1000 per second, queueing up to
+	// 1 s) on the same argument IN FRONT of R1: requests at one instant are queued by it ("should
+	// wait") and must still be checked by the concurrency rule behind it
+	Throttle0 bool `json:"throttling_rule_in_front,omitempty"`
 	// ArgKind: Go type of the metered argument values: "" string, "int64", "named" (a named int32 type)
 	ArgKind string `json:"arg_kind,omitempty"`
 }
@@ -158,6 +162,11 @@ func mkRule(res string, r RuleSpec) *hotspot.Rule {
 
 func (s *scen) ruleList() []*hotspot.Rule {
 	rules := []*hotspot.Rule{mkRule("r1", s.cfg.R1)}
+	if s.cfg.Throttle0 {
+		t := &hotspot.Rule{Resource: "r1", MetricType: hotspot.QPS, ControlBehavior: hotspot.Throttling, ParamIndex: s.cfg.R1.Index,
+			Threshold: 1000, DurationInSec: 1, MaxQueueingTimeMs: 1000}
+		rules = []*hotspot.Rule{t, rules[0]}
+	}
 	if s.cfg.R1b != nil {
 		b := *s.cfg.R1b
 		b.Threshold = s.r1bTh
@@ -346,7 +355,7 @@ func (s *scen) Apply(i int) (string, string) {
 
 func (s *scen) counters(res string) map[string]int64 {
 	idx := 0
-	if res == "r1" && s.cfg.R1b != nil && s.cfg.R1bFirst {
+	if res == "r1" && (s.cfg.R1b != nil && s.cfg.R1bFirst || s.cfg.Throttle0) {
 		idx = 1
 	}
 	conc, _, _ := hotspot.VerifCounters(res, idx)
@@ -427,6 +436,9 @@ func (s *scen) Key() string {
 		}
 	}
 	c1, _, _ := hotspot.VerifCounters("r1", 0)
+	if s.cfg.Throttle0 {
+		c1, _, _ = hotspot.VerifCounters("r1", 1)
+	}
 	c3, _, _ := hotspot.VerifCounters("r3", 0)
 	fmt.Fprintf(&b, "|%v|%v|%v|m%d%v", c1, c3, vsync.PoolSizes(), s.misses, vsync.PoolMiss != nil)
 	return b.String()
@@ -468,6 +480,8 @@ func configs() []Config {
 		{R1: sp(2, map[string]int64{"A": 1}, false, 0), R1b: &RuleSpec{Threshold: 3, Index: 1}, R1bFirst: true},
 		{R1: sp(2, nil, false, 0), R1b: &RuleSpec{Threshold: 2, Index: 1}, ReloadB: 3},
 		{R1: sp(1, nil, false, 0), R1b: &RuleSpec{Threshold: 3, Index: 1}, R1bFirst: true, ReloadB: 1},
+		{R1: sp(2, nil, false, 0), Throttle0: true},
+		{R1: sp(1, map[string]int64{"B": 2}, false, 0), Throttle0: true},
 		{R1: sp(2, nil, false, 0), ArgKind: "int64"},
 		{R1: sp(1, nil, true, 0), ArgKind: "named"},
 		{R1: sp(2, nil, false, -1), R3: &r3, ArgKind: "named"},
